@@ -171,7 +171,8 @@ class Hist:
         elif meth == "insert":
             self.emit([5, ir, idx, rng.choice(mods)])
         elif meth in ("extend", "iadd"):
-            vs = list(dict.fromkeys(rng.choice(mods) for _ in range(rng.choice([0, 1, 2, 3]))))
+            # repeats and modules already listed are legal: each mention moves the module to the end
+            vs = [rng.choice(cur) if (cur and rng.random() < 0.25) else rng.choice(mods) for _ in range(rng.choice([0, 1, 2, 3, 4]))]
             it = [6, ir, vs]
             rep = self.w.run(it + ["iadd"] if meth == "iadd" else it)
             self.items.append(it)
